@@ -38,7 +38,7 @@ def main(tier, seed):
             if ('f', 'division_by_zero') not in x['mobs'][0]:
                 res.append(common.Violation(
                     PROP, 'constant expression rejected at compile time (%s) but its run-time twin does not fault' % it.meta['rejected_msg'],
-                    classifier={'kind': 'rejected_without_fault', 'family': it.meta['family'], 'twin': True,
+                    classifier={'kind': 'rejected_without_fault', 'family': it.meta['family'], 'twin': True, 'all_constant': True,
                                 'wraps': bool(x.get('wrap'))},     # HiDSem: some intermediate value of the twin left the signed range
                     detail={'constant_source': it.meta['const_src'], 'twin': it.src, 'args': it.args,
                             'twin_observable': rt.show(x['mobs'])}))
